@@ -19,7 +19,9 @@ pub fn autoplay(millis: u64) {
     let mut cache: TranspositionTable =
         HashMap::with_capacity_and_hasher(TT_CAPACITY, BuildNoHashHasher::default());
 
-    loop {
+    // Same limit as the UCI interface: the per-move state of a game is kept
+    // in a fixed-size stack, searches need room on top of it
+    while game.len() < 400 {
         let mut moves = ArrayVec::new();
         game.get_moves(&mut moves, true);
         println!("{}", game.get_pgn());
